@@ -383,6 +383,32 @@ fn run_history(h: &Hist, hi: usize, ctx: &mut Ctx) -> Result<Final, Violation> {
                         other_text
                     );
                 }
+                if oi % 3 == 2 {
+                    // printed through placeholders with a width, a precision, a sign or zero
+                    // padding: the entry is a document, not a number - its lines do not depend
+                    // on the placeholder (otherwise the text would not parse back to the values)
+                    let want = print_entry(&model);
+                    for (spec, got) in [
+                        ("{:>24}", format!("{:>24}", sum)),
+                        ("{:<16}", format!("{:<16}", sum)),
+                        ("{:.3}", format!("{:.3}", sum)),
+                        ("{:+}", format!("{:+}", sum)),
+                        ("{:012}", format!("{:012}", sum)),
+                        ("{:#}", format!("{:#}", sum)),
+                    ] {
+                        ctx.probe("printed-with-a-format-spec");
+                        ensure!(
+                            got == want,
+                            "print-mismatch",
+                            "history {} op {}: printed through {:?} it gives {:?}, the canonical print is {:?}",
+                            hi,
+                            oi,
+                            spec,
+                            got,
+                            want
+                        );
+                    }
+                }
                 if oi % 3 == 1 {
                     // printed into a sink that reports an error part-way (a closed pipe);
                     // what it took is a prefix of the canonical print, and the ordinary
